@@ -86,6 +86,49 @@ def check_verb(po, sk, holes):
     return None, None
 
 
+def rule_toggle_restored(ctx, rep, cfgs):
+    """LaTeXRenderer raises a documented refusal (no free \\verb delimiter) that callers are expected to catch and
+    carry on after. A renderer attribute that a method switches for a while (escaping off, a mode flag) must
+    therefore be switched back on every exit, the exceptional one included: restore in a finally."""
+    import ast as _ast
+    from .c11 import restore_protects, Write, stmt_of
+    from ..model import walk_function
+    model = ctx.model
+    rep.rule('R-TEX-STATE', 'a renderer attribute switched inside a method is restored on every exit, exceptions included')
+    n = 0
+    seen = set()
+    for cfg in cfgs:
+        for c in cfg.cls.mro():
+            if not isinstance(c, ClassInfo):
+                continue
+            for name, m in c.methods.items():
+                if name == '__init__' or not m.params() or m in seen:
+                    continue
+                seen.add(m)
+                selfname = m.params()[0]
+                by_attr = {}
+                for node in walk_function(m.node):
+                    if isinstance(node, _ast.Assign):
+                        for t in node.targets:
+                            if isinstance(t, _ast.Attribute) and isinstance(t.value, _ast.Name) and t.value.id == selfname:
+                                by_attr.setdefault(t.attr, []).append(Write('instance:%s.%s' % (c.short, t.attr), m, t, 'assign', node.value))
+                for attr, ws in by_attr.items():
+                    if len(ws) < 2:
+                        continue
+                    ws.sort(key=lambda w: (w.node.lineno, w.node.col_offset))
+                    rep.instance('R-TEX-STATE')
+                    for w in ws[:-1]:
+                        n += 1
+                        ok, why = restore_protects(m, w, ws[-1])
+                        rep.obligation('R-TEX-STATE', ok, {'method': m.short, 'attribute': attr, 'why': why})
+                        if not ok:
+                            rep.find('R-TEX-STATE', m.short, 'self.%s' % attr,
+                                     '%s switches self.%s and switches it back later, but %s: after a refusal raised in between '
+                                     '(callers catch it and go on) the renderer keeps the switched value for every later document'
+                                     % (m.short, attr, why), loc(model.unit_of(m), w.node))
+    rep.extra['toggle_sites'] = n
+
+
 def rule_math_span(ctx, rep, cfgs):
     """Math spans are passed through unescaped by design - which is only sound if what the token holds is
     a math span and nothing else: the text the Math pattern hands to the token (its parse group) must be
@@ -131,6 +174,7 @@ def run(ctx):
     if not cfgs:
         raise AnalysisError('no LaTeXRenderer configuration evaluated')
     rule_math_span(ctx, rep, cfgs)
+    rule_toggle_restored(ctx, rep, cfgs)
     n_holes = 0
     methods = set()
     for cfg in cfgs:
